@@ -14,6 +14,11 @@ def faultEnv (kind k len : Nat) : Bool × Option (List Nat) × List WriteEvt :=
   | 5 => if k ≥ len then (true, none, []) else (true, none, (if k > 0 then [.wrote k] else []) ++ [.fail])
   | 6 => (false, some [1, 2, 3, 4, 5, 6, 7, 8, 9, 10, 11], [])
   | 11 => (true, some ((List.range (len + 1000)).map (· % 256)), [])
+  -- 12..15: an existing file of the SAME length differing only near its end / at its start, a shorter one, the identical one
+  | 12 => (true, some ((List.range len).map fun i => if i + 16 ≥ len then 35 else i % 256), [])
+  | 13 => (true, some ((List.range len).map fun i => if i < 16 then 35 else i % 256), [])
+  | 14 => (true, some ((List.range (len / 2)).map (· % 256)), [])
+  | 15 => (true, some ((List.range len).map (· % 256)), [])
   | _ => (false, none, [])
 
 /-- `file <kind> <k> <renderer> <size> => <ok|err|trap|crash…> <absent|equal|prefix:n|differs:n> <len>` -/
@@ -23,7 +28,7 @@ def opFile (args res : List String) : Verdict :=
     let kind := kind.toNat!
     let k := k.toNat!
     let len := len.toNat!
-    let faultFree := kind == 0 || kind == 11 || (kind == 5 && k ≥ len)
+    let faultFree := kind == 0 || (kind ≥ 11 && kind ≤ 15) || (kind == 5 && k ≥ len)
     let spec := firstFail [
       (if result == "ok" ∨ result == "err" then none else some s!"to_file-{result}"),
       (if result == "ok" ∧ state != "equal" then some s!"Ok-returned-but-file-is-{state}" else none),
